@@ -730,7 +730,7 @@ PROPS = {
              " Encoder also on the largest datagrams a socket delivers: payloads of 9000, 65470 ... 65473, 65500, 65506, 65507 bytes (around the decoder's client-side limit, which is not the encoder's)"
              " Among the non-UTF-8 application names four are valid up to their end and stop in the middle of a character",
         explanation="theorem decode_segmentation: chunked machine = independent record-level decoder on the concatenation, for all "
-                    "chunk lists; spec_decode_encode: round trip; inv_step/inv_buffer_bounded: bounded buffering, no panic",
+                    "chunk lists; spec_decode_encode: round trip; inv_step/inv_buffer_bounded: bounded buffering, no panic; encode_out_framed/encode_out_concat: the 6.4 reply is 40 header bytes + the payload verbatim, its length field counts what follows, consecutive replies split at the declared length",
         trusted=["std::str::from_utf8 as transcribed in TT/Model/Utf8.lean (tied by the bad/good name corpus)"],
         assumptions=["IPv6 addresses with 96 leading zero bits cannot be distinguished from zero-padded IPv4 on the wire (6.3); "
                      "excluded from the round-trip theorem by an explicit predicate"],
